@@ -7,6 +7,7 @@ package main
 // run, equal to the Lean model), then lets a fresh child resume to the tip and compares again.
 
 import (
+	"github.com/pegnet/pegnetd/node/pegnet"
 	"time"
 	"database/sql"
 	"sync"
@@ -211,6 +212,10 @@ func scenCrash(rep *Report, tier string, seed int64) {
 	defer os.RemoveAll(dir)
 	g := NewGen(seed, 4, 1)
 	s := Setup{Acts: crashActs(), AvgPeriod: 8, SyncVersion: mainnetSyncVersion}
+	// the version-lock fork heights lie inside the chain (at the bank-table and 2.0 activations, as
+	// on mainnet): a process killed around such a height restarts through CheckHardForks with the
+	// sync height right below / at / above a fork
+	s.Forks = []pegnet.ForkEvent{{ActivationHeight: 0, MinimumVersion: -1}, {ActivationHeight: s.Acts.V4, MinimumVersion: 1}, {ActivationHeight: s.Acts.V20, MinimumVersion: 2}}
 	tip := uint32(152)
 	first := s.Acts.Pegnet + 1
 	ref, ok := buildReference(rep, s, g, dir, first, tip, func(w *World, h uint32) *BlockSpec { return w.BuildBlock(h) })
@@ -265,9 +270,9 @@ func scenCrash(rep *Report, tier string, seed int64) {
 		return spans[i], true
 	}
 	// the heights with one-time or periodic work are always covered, densely
-	for _, h := range []uint32{s.Acts.DevRewards, 144, s.Acts.V202} {
+	for _, h := range []uint32{s.Acts.DevRewards, 144, s.Acts.V202, s.Acts.V4 - 1, s.Acts.V4, s.Acts.V20 - 1, s.Acts.V20} {
 		if sp, ok := spanOf(h); ok {
-			addSpan(sp, tier == "thorough")
+			addSpan(sp, tier == "thorough" && h >= s.Acts.DevRewards)
 			for n := sp.begin - 4; n < sp.begin; n++ { // whatever runs right before BEGIN
 				points = append(points, n)
 			}
